@@ -1,6 +1,7 @@
 import OdakProofs.Lemmas.Mat3
 import OdakProofs.Lemmas.GenGeometry
 import OdakProofs.Lemmas.GenSamplers
+import OdakProofs.Lemmas.GenRayCreate
 import OdakProofs.Props.C13
 import OdakModel.Rays
 import Mathlib.Analysis.SpecialFunctions.Trigonometric.Inverse
@@ -341,5 +342,205 @@ theorem C14_gen_cone_within_limit (origin center tilt : Vec3 ℝ) (s0 s1 : ℝ) 
     rcases List.mem_cons.mp hd with h | h
     · rw [h]; exact hc _ (by simp)
     · rw [List.mem_singleton.mp h]; exact hc _ (by simp)
+
+end Odak
+
+/-! ## Ray creation REGENERATED from the Python source (`Generated/RayCreate.lean`, `Generated/RayCreateBatch.lean`; translator
+  `harness/translate/raycreate.py`; tied to the model by `Lemmas/GenRayCreate.lean`).  `…T` = torch, `…N` = NumPy. -/
+namespace Odak
+open Odak.Gen
+
+/-- generated `create_ray` (both APIs): the ray starts at the given point and its direction cosines ARE the cosines of the given angles
+    (degrees), component by component; torch ray `i` of a batch is built from row `i` of both arguments; with `direction = True` the
+    second argument is stored unchanged -/
+theorem C14_gen_create_ray_direction_cosines {m : Nat} [NeZero m] (xyz abg : Fin m → Vec3 ℝ) (i : Fin m) (p a : Vec3 ℝ) :
+    createRayT xyz abg i = ⟨xyz i, ⟨Real.cos ((abg i).x * Real.pi / 180), Real.cos ((abg i).y * Real.pi / 180),
+      Real.cos ((abg i).z * Real.pi / 180)⟩⟩ ∧
+    createRayN p a = ⟨p, ⟨Real.cos (a.x * Real.pi / 180), Real.cos (a.y * Real.pi / 180), Real.cos (a.z * Real.pi / 180)⟩⟩ ∧
+    createRayDirectionT xyz abg i = ⟨xyz i, abg i⟩ := by
+  rw [createRayT_eq, createRayN_eq, createRayDirectionT_eq]
+  simp only [createRayDir, num_cos, num_pi, num_ofNat, Nat.cast_ofNat, and_self]
+
+/-- generated NumPy `create_ray_from_angles` (one start point) for every mode of the REGENERATED mode table: the ray starts at the given
+    point, its direction is the ROTATED UNIT Z VECTOR `R ẑ` (`R` = the matrix product the mode names, angles in degrees) - in
+    particular it does not depend on the start point - and it has unit length.  When `rotate_points` takes its early return (all three
+    angles zero) the direction is the Z axis itself. -/
+theorem C14_gen_ray_from_angles (point angles : Vec3 ℝ) (mode : String) (order : List Axis)
+    (hmode : modeOrder npRotatePointsModes mode = some order) :
+    (createRayFromAnglesN point angles mode false).o = point ∧
+    (createRayFromAnglesN point angles mode false).d = (rotFromOrder .np order angles).mulVec ⟨0, 0, 1⟩ ∧
+    Vec3.normSq (createRayFromAnglesN point angles mode false).d = 1 ∧
+    createRayFromAnglesN point angles mode true = ⟨point, ⟨0, 0, 1⟩⟩ := by
+  have hR := C13_rotation_rigid .np order angles
+  rw [createRayFromAnglesN_eq, createRayFromAnglesN_eq, hmode, Option.getD_some]
+  have h5 : Real.sqrt (0 * 0 + 0 * 0 + 5 * 5) = 5 := by
+    rw [show (0 * 0 + 0 * 0 + 5 * 5 : ℝ) = 5 ^ 2 by norm_num]; exact Real.sqrt_sq (by norm_num)
+  have hn : Vec3.norm ((rotFromOrder .np order angles).mulVec ⟨0, 0, 5⟩) = 5 := by
+    unfold Vec3.norm; rw [hR.normSq_mulVec]
+    simpa only [Vec3.normSq, Vec3.dot, num_sqrt] using h5
+  have hd : (rayFromAngles order point angles false).d = (rotFromOrder .np order angles).mulVec ⟨0, 0, 1⟩ := by
+    simp only [rayFromAngles, rayDirTwoPoints, num_ofNat, Nat.cast_ofNat, from_angles_diff, hn]
+    apply Vec3.ext' <;> simp only [Vec3.sdiv, Mat3.mulVec] <;> ring
+  refine ⟨rfl, hd, ?_, ?_⟩
+  · rw [hd, hR.normSq_mulVec]; simp [Vec3.normSq, Vec3.dot]
+  · simp only [rayFromAngles, rayDirTwoPoints, npRotatePoints, if_true, num_ofNat, Nat.cast_ofNat]
+    refine Ray.ext' rfl ?_
+    have e : point + (⟨0, 0, 5⟩ : Vec3 ℝ) - point = ⟨0, 0, 5⟩ := by
+      apply Vec3.ext' <;> simp [Vec3.add_def, Vec3.sub_def, Vec3.add, Vec3.sub]
+    rw [e]
+    have hn5 : Vec3.norm (⟨0, 0, 5⟩ : Vec3 ℝ) = 5 := by
+      simpa only [Vec3.norm, Vec3.normSq, Vec3.dot, num_sqrt] using h5
+    rw [hn5]
+    apply Vec3.ext' <;> simp [Vec3.sdiv]
+
+/-- ... zero angles give the Z axis on BOTH paths of `rotate_points` (early return or not), whatever the start point -/
+theorem C14_gen_ray_from_angles_zero (point : Vec3 ℝ) (mode : String) (order : List Axis)
+    (hmode : modeOrder npRotatePointsModes mode = some order) (z : Bool) :
+    createRayFromAnglesN point ⟨0, 0, 0⟩ mode z = ⟨point, ⟨0, 0, 1⟩⟩ := by
+  obtain ⟨ho, hd, _, hz⟩ := C14_gen_ray_from_angles point ⟨0, 0, 0⟩ mode order hmode
+  cases z
+  · refine Ray.ext' ho ?_
+    rw [hd, rotFromOrder_zero, Mat3.one_mulVec]
+  · exact hz
+
+/-- ... and for an `[m x 3]` array of start points ray `i` starts at point `i`; all rays have the same direction `R ẑ` -/
+theorem C14_gen_ray_from_angles_batch {m : Nat} [NeZero m] (point : Fin m → Vec3 ℝ) (angles : Vec3 ℝ) (mode : String)
+    (order : List Axis) (hmode : modeOrder npRotatePointsModes mode = some order) (i : Fin m) :
+    (createRayFromAnglesBatchN point angles mode false i).o = point i ∧
+    (createRayFromAnglesBatchN point angles mode false i).d = (rotFromOrder .np order angles).mulVec ⟨0, 0, 1⟩ ∧
+    Vec3.normSq (createRayFromAnglesBatchN point angles mode false i).d = 1 := by
+  rw [createRayFromAnglesBatchN_eq]
+  obtain ⟨h1, h2, h3, _⟩ := C14_gen_ray_from_angles (point i) angles mode order hmode
+  exact ⟨h1, h2, h3⟩
+
+end Odak
+
+namespace Odak
+open Odak.Gen
+
+/-- generated NumPy `find_nearest_points`, generic branch.  GUARD (the test the source performs, `np.all(n) == 0` with `n = d₀ × d₁`):
+    NO component of `d₀ × d₁` is zero - this implies that the rays are not parallel.  Then the two returned points lie on the two rays,
+    `c₀ = o₀ + t d₀`, `c₁ = o₁ + s d₁`, and the segment joining them is perpendicular to both directions: they are the mutually nearest
+    points. -/
+theorem C14_gen_nearest_points (r0 r1 : Ray ℝ) (h : someCrossComponentZero r0 r1 = false) :
+    ∃ t s : ℝ, (findNearestPointsN r0 r1).1 = propagateRay r0.o r0.d t ∧ (findNearestPointsN r0 r1).2 = propagateRay r1.o r1.d s ∧
+      Vec3.dot ((findNearestPointsN r0 r1).2 - (findNearestPointsN r0 r1).1) r0.d = 0 ∧
+      Vec3.dot ((findNearestPointsN r0 r1).2 - (findNearestPointsN r0 r1).1) r1.d = 0 := by
+  rw [findNearestPointsN_eq_of_generic r0 r1 h]
+  have hz : ¬ ((Vec3.cross r0.d r1.d).x = 0 ∨ (Vec3.cross r0.d r1.d).y = 0 ∨ (Vec3.cross r0.d r1.d).z = 0) := by
+    rw [← someCrossComponentZero_iff, h]; simp
+  have hx : (Vec3.cross r0.d r1.d).x ≠ 0 := fun e => hz (Or.inl e)
+  obtain ⟨o0, d0⟩ := r0
+  obtain ⟨o1, d1⟩ := r1
+  simp only [Vec3.cross] at hx
+  -- the two denominators are ± |d₀ × d₁|²
+  set nn : ℝ := (d0.y * d1.z - d0.z * d1.y) ^ 2 + (d0.z * d1.x - d0.x * d1.z) ^ 2 + (d0.x * d1.y - d0.y * d1.x) ^ 2 with hnn
+  have hnn0 : nn ≠ 0 := by
+    have : 0 < nn := by
+      have := sq_pos_of_ne_zero hx
+      nlinarith [sq_nonneg (d0.z * d1.x - d0.x * d1.z), sq_nonneg (d0.x * d1.y - d0.y * d1.x)]
+    exact this.ne'
+  have ha : Vec3.dot d0 (Vec3.cross d1 (Vec3.cross d0 d1)) = nn := by
+    simp only [Vec3.dot, Vec3.cross, hnn]; ring
+  have hb : Vec3.dot d1 (Vec3.cross d0 (Vec3.cross d0 d1)) = -nn := by
+    simp only [Vec3.dot, Vec3.cross, hnn]; ring
+  refine ⟨Vec3.dot (o1 - o0) (Vec3.cross d1 (Vec3.cross d0 d1)) / Vec3.dot d0 (Vec3.cross d1 (Vec3.cross d0 d1)),
+    Vec3.dot (o0 - o1) (Vec3.cross d0 (Vec3.cross d0 d1)) / Vec3.dot d1 (Vec3.cross d0 (Vec3.cross d0 d1)), ?_, ?_, ?_, ?_⟩
+  · apply Vec3.ext' <;> simp only [nearestPoints, propagateRay, Vec3.add_def, Vec3.add, Vec3.smul] <;> ring
+  · apply Vec3.ext' <;> simp only [nearestPoints, propagateRay, Vec3.add_def, Vec3.add, Vec3.smul] <;> ring
+  · simp only [nearestPoints, ha, hb]
+    simp only [Vec3.dot, Vec3.cross, Vec3.add_def, Vec3.sub_def, Vec3.add, Vec3.sub, Vec3.smul]
+    field_simp
+    simp only [hnn]; ring
+  · simp only [nearestPoints, ha, hb]
+    simp only [Vec3.dot, Vec3.cross, Vec3.add_def, Vec3.sub_def, Vec3.add, Vec3.sub, Vec3.smul]
+    field_simp
+    simp only [hnn]; ring
+
+end Odak
+
+namespace Odak
+open Odak.Gen
+
+/-- generated `calculate_intersection_of_two_rays`, every input: the returned point lies on the line of the FIRST ray, at the first
+    returned distance, and the two returned distances are in descending order -/
+theorem C14_gen_intersection_point_on_first_ray (r0 r1 : Ray ℝ) :
+    (intersectionOfTwoRaysN r0 r1).1 = propagateRay r0.o r0.d (intersectionOfTwoRaysN r0 r1).2.1 ∧
+    (intersectionOfTwoRaysN r0 r1).2.2 ≤ (intersectionOfTwoRaysN r0 r1).2.1 :=
+  ⟨intersectionOfTwoRaysN_point r0 r1, intersectionOfTwoRaysN_sorted r0 r1⟩
+
+/-- generated `find_nearest_points`, the OTHER branch (some component of `d₀ × d₁` is zero: parallel rays, but also e.g. any two
+    axis-aligned rays): both returned points are one and the same point, the one `calculate_intersection_of_two_rays` returns, which
+    lies on the line of the first ray -/
+theorem C14_gen_nearest_points_degenerate (r0 r1 : Ray ℝ) (h : someCrossComponentZero r0 r1 = true) :
+    (findNearestPointsN r0 r1).1 = (findNearestPointsN r0 r1).2 ∧
+    ∃ t : ℝ, (findNearestPointsN r0 r1).1 = propagateRay r0.o r0.d t := by
+  rw [findNearestPointsN_eq_of_degenerate r0 r1 h]
+  exact ⟨rfl, _, intersectionOfTwoRaysN_point r0 r1⟩
+
+/-- generated `calculate_intersection_of_two_rays` for two rays that REALLY meet, `o₀ + s₀ d₀ = o₁ + s₁ d₁`, with non-parallel
+    directions (GUARD: Gram determinant `|d₀|²|d₁|² - (d₀·d₁)² ≠ 0`, the case in which `np.linalg.lstsq` is modelled): the least-squares
+    system `[d₀ d₁] t = o₀ - o₁` has the exact solution `t = (-s₀, s₁)`, so the returned distances are `(max(-s₀, s₁), min(-s₀, s₁))`
+    and the returned point is `o₀ + max(-s₀, s₁) d₀` -/
+theorem C14_gen_intersection_of_meeting_rays (r0 r1 : Ray ℝ) (s0 s1 : ℝ)
+    (hdet : Vec3.dot r0.d r0.d * Vec3.dot r1.d r1.d - Vec3.dot r0.d r1.d * Vec3.dot r0.d r1.d ≠ 0)
+    (hmeet : r0.o + Vec3.smul s0 r0.d = r1.o + Vec3.smul s1 r1.d) :
+    (intersectionOfTwoRaysN r0 r1).2 = (max (-s0) s1, min (-s0) s1) ∧
+    (intersectionOfTwoRaysN r0 r1).1 = propagateRay r0.o r0.d (max (-s0) s1) := by
+  have hl := lstsq32_of_meeting r0 r1 s0 s1 hdet hmeet
+  have hx := congrArg Vec3.x hmeet
+  have hy := congrArg Vec3.y hmeet
+  have hz := congrArg Vec3.z hmeet
+  simp only [Vec3.add_def, Vec3.add, Vec3.smul] at hx hy hz
+  have hB : (⟨r0.o.x - r1.o.x, r0.o.y - r1.o.y, r0.o.z - r1.o.z⟩ : Vec3 ℝ) = r0.o - r1.o := rfl
+  have hres : Num.allclose3 (⟨r0.d.x * -s0 + r1.d.x * s1, r0.d.y * -s0 + r1.d.y * s1, r0.d.z * -s0 + r1.d.z * s1⟩ : Vec3 ℝ)
+      (r0.o - r1.o) = true := by
+    have e : (⟨r0.d.x * -s0 + r1.d.x * s1, r0.d.y * -s0 + r1.d.y * s1, r0.d.z * -s0 + r1.d.z * s1⟩ : Vec3 ℝ) = r0.o - r1.o := by
+      apply Vec3.ext' <;> simp only [Vec3.sub_def, Vec3.sub] <;> linarith
+    rw [e]; simp only [Num.allclose3, close_self, Bool.and_self]
+  have hpt := intersectionOfTwoRaysN_point r0 r1
+  have hd : (intersectionOfTwoRaysN r0 r1).2 = (max (-s0) s1, min (-s0) s1) := by
+    simp only [intersectionOfTwoRaysN, hB, hl, hres, Bool.not_true, Bool.false_eq_true, if_false, decide_eq_true_eq, neg_neg]
+    rcases le_total (-s0) s1 with hle | hle
+    · have h' : ¬ (s0 ≤ -s1) ∨ s0 = -s1 := by
+        by_cases e : s0 = -s1
+        · exact Or.inr e
+        · left; intro hc; exact e (by linarith)
+      rcases h' with h' | h'
+      · rw [if_neg h', if_neg h', max_eq_right hle, min_eq_left hle]
+      · have : -s0 = s1 := by linarith
+        simp [h']
+    · have h' : s0 ≤ -s1 := by linarith
+      rw [if_pos h', if_pos h', max_eq_left hle, min_eq_right hle]
+  refine ⟨hd, ?_⟩
+  rw [hpt, hd]
+
+/-- ... hence the returned point is in general NOT the point where the rays meet: the rays `(0,0,0) + t (1,0,0)` and `(2,-1,0) + s (0,1,0)`
+    meet at `(2, 0, 0)` (`s₀ = 2`, `s₁ = 1`); the generated function returns `(1, 0, 0)` with distances `(1, -2)`.  `find_nearest_points`
+    returns this point twice for these rays (`d₀ × d₁ = (0, 0, 1)` has zero components), although it is not even on the second ray. -/
+theorem C14_gen_intersection_is_not_the_meeting_point :
+    let r0 : Ray ℝ := ⟨⟨0, 0, 0⟩, ⟨1, 0, 0⟩⟩
+    let r1 : Ray ℝ := ⟨⟨2, -1, 0⟩, ⟨0, 1, 0⟩⟩
+    r0.o + Vec3.smul 2 r0.d = r1.o + Vec3.smul 1 r1.d ∧
+    r0.o + Vec3.smul 2 r0.d = (⟨2, 0, 0⟩ : Vec3 ℝ) ∧
+    (intersectionOfTwoRaysN r0 r1).1 = (⟨1, 0, 0⟩ : Vec3 ℝ) ∧ (intersectionOfTwoRaysN r0 r1).2 = (1, -2) ∧
+    someCrossComponentZero r0 r1 = true ∧ findNearestPointsN r0 r1 = (⟨1, 0, 0⟩, ⟨1, 0, 0⟩) := by
+  intro r0 r1
+  have hmeet : r0.o + Vec3.smul 2 r0.d = r1.o + Vec3.smul 1 r1.d := by
+    apply Vec3.ext' <;> simp [r0, r1, Vec3.add_def, Vec3.add, Vec3.smul]
+  have hdet : Vec3.dot r0.d r0.d * Vec3.dot r1.d r1.d - Vec3.dot r0.d r1.d * Vec3.dot r0.d r1.d ≠ 0 := by
+    simp [r0, r1, Vec3.dot]
+  obtain ⟨hd, hp⟩ := C14_gen_intersection_of_meeting_rays r0 r1 2 1 hdet hmeet
+  have hmax : max (-2 : ℝ) 1 = 1 := max_eq_right (by norm_num)
+  have hmin : min (-2 : ℝ) 1 = -2 := min_eq_left (by norm_num)
+  rw [hmax] at hp
+  rw [hmax, hmin] at hd
+  have hpt : (intersectionOfTwoRaysN r0 r1).1 = (⟨1, 0, 0⟩ : Vec3 ℝ) := by
+    rw [hp]; apply Vec3.ext' <;> simp [r0, propagateRay]
+  have hs : someCrossComponentZero r0 r1 = true := by
+    rw [someCrossComponentZero_iff]; left; simp [r0, r1, Vec3.cross]
+  refine ⟨hmeet, ?_, hpt, hd, hs, ?_⟩
+  · apply Vec3.ext' <;> simp [r0, Vec3.add_def, Vec3.add, Vec3.smul]
+  · rw [findNearestPointsN_eq_of_degenerate r0 r1 hs, hpt]
 
 end Odak
